@@ -399,7 +399,8 @@ struct Exec {
         case OP_PUT_ATT: {
             int mt = native_memtype(op.att.type); std::vector<uint8_t> buf(op.att.v.size() * 8 + 8);
             for (size_t k = 0; k < op.att.v.size(); k++) write_mem(buf.data() + k * mt_size(mt), mt, op.att.v[k]);
-            std::string anm = (op.note == "multidefine" && r == op.alt_rank) ? op.alt_name : op.name;
+            if (op.note == "multidefine" && r == op.alt_rank && op.alt_name.empty() && op.att.v.size() >= 2) write_mem(buf.data() + (op.att.v.size() - 1) * mt_size(mt), mt, op.att.v.back() == 1 ? 2 : op.att.v.back() - 1);   // C08 safe mode: this rank passes a different last value
+            std::string anm = (op.note == "multidefine" && r == op.alt_rank && !op.alt_name.empty()) ? op.alt_name : op.name;
             rc = lib([&] { return api_put_att(me.ncid[op.file], op.var < 0 ? NC_GLOBAL : op.var, anm.c_str(), op.att.type, (MPI_Offset)op.att.v.size(), buf.data(), mt); });
             rc_check(op, opi, rc, exp_rc(op), op.rc_any); break;
         }
